@@ -226,6 +226,10 @@ main(int argc, char **argv)
 		suite_list[0] = pv->s->id;
 		cfg.suites = suite_list; cfg.nsuites = 1;
 		cfg.vmin = cfg.vmax = pv->version;
+		/* OpenSSL is pinned to the version; half of the time BearSSL supports the whole range and is
+		   negotiated down (as a client its hello and RSA premaster then carry 1.2 while the session is lower) */
+		if (vf_below(&r, 2) == 0) { cfg.vmin = 0x0301; cfg.vmax = 0x0303; }
+		vf_distinct("version_shape", "%04x b%04x-%04x client%d kx%d", pv->version, cfg.vmin, cfg.vmax, b_is_client, pv->s->kx);
 		cfg.keykind = keykind;
 		vf_bytes(&r, cfg.seed, 32);
 		b_total = 1 + vf_below(&r, (uint32_t)(frag > 4096 ? 20000 : 3 * frag));
